@@ -61,6 +61,7 @@ type SpecFunc struct {
 	Body      *CExpr
 	Text      string
 	Recursive bool
+	UsesLen   []bool // per parameter: does the body depend on len(param)?
 	File      string
 	Line      int
 }
@@ -116,6 +117,23 @@ func loadContracts(dirs map[string]string) (*Contracts, error) {
 	}
 	for _, sf := range cs.Specs {
 		sf.Recursive = callsSpec(sf.Body, sf.Name, cs, map[string]bool{})
+		sf.UsesLen = make([]bool, len(sf.Params))
+	}
+	// fixpoint: a sequence parameter "uses its length" unless it only occurs as s[i]
+	// or as an argument in a position that itself does not use the length
+	for changed := true; changed; {
+		changed = false
+		for _, sf := range cs.Specs {
+			for i, p := range sf.Params {
+				if sf.UsesLen[i] || !isSeqType(p.Type) {
+					continue
+				}
+				if seqUsesLen(sf.Body, p.Name, cs) {
+					sf.UsesLen[i] = true
+					changed = true
+				}
+			}
+		}
 	}
 	return cs, nil
 }
@@ -142,6 +160,50 @@ func callsSpec(e *CExpr, target string, cs *Contracts, seen map[string]bool) boo
 	}
 	for _, a := range e.Args {
 		if callsSpec(a, target, cs, seen) {
+			return true
+		}
+	}
+	return false
+}
+
+func seqUsesLen(e *CExpr, name string, cs *Contracts) bool {
+	if e == nil {
+		return false
+	}
+	switch e.Kind {
+	case "id":
+		return e.Str == name // bare occurrence (comparison, slicing base handled below)
+	case "index":
+		if e.X.Kind == "id" && e.X.Str == name {
+			return seqUsesLen(e.Y, name, cs)
+		}
+	case "call":
+		if sf, ok := cs.Specs[e.Str]; ok && len(sf.Params) == len(e.Args) {
+			for i, a := range e.Args {
+				if a.Kind == "id" && a.Str == name {
+					if sf.UsesLen[i] {
+						return true
+					}
+					continue
+				}
+				if seqUsesLen(a, name, cs) {
+					return true
+				}
+			}
+			return false
+		}
+	case "forall", "exists":
+		if e.Var == name {
+			return false
+		}
+	}
+	for _, c := range []*CExpr{e.X, e.Y, e.Z, e.Lo, e.Hi, e.Body} {
+		if seqUsesLen(c, name, cs) {
+			return true
+		}
+	}
+	for _, a := range e.Args {
+		if seqUsesLen(a, name, cs) {
 			return true
 		}
 	}
